@@ -1,5 +1,6 @@
 import Driver.Util
 import HeimdallModel.Spec.Config
+import HeimdallModel.Spec.ConfigLeaf
 -- @family config
 /-! Line-protocol family `config` (property C20): the configuration loader model on generated inputs.
 
@@ -61,8 +62,54 @@ def maxDepth : Val → Nat
 def countIdx (ls : List (Path × String)) : Nat :=
   (ls.filter fun l => l.1.any fun s => match s with | .idx _ => true | _ => false).length
 
+def scalarOf : Json → Driver.E Scalar
+  | .null => pure .null
+  | .str s => pure (.str s.toList)
+  | .bool b => pure (.bool b)
+  | .num n => if n.exponent == 0 then pure (.int n.mantissa) else throw "non-integer number: give floats as {\"$float\": text}"
+  | j => match j.getObjVal? "$float" with
+    | .ok (.str r) => pure (.float r.toList)
+    | _ => throw "unsupported scalar"
+
+def leafTypeOf : String → Driver.E LeafType
+  | "string" => pure .string
+  | "int" => pure .int
+  | "bool" => pure .bool
+  | "text" => pure .text
+  | t => throw s!"unknown leaf type {t}"
+
+def leafToJson : Leaf → Json
+  | .str s => Json.str (String.ofList s)
+  | .int n => Driver.jint n
+  | .bool b => Json.bool b
+  | .text s => Json.mkObj [("text", Json.str (String.ofList s))]
+  | .zero => Json.str "zero"
+  | .fail => Json.str "err:decode"
+  | .unsupported => Json.str "unsupported"
+
+/-- op `leaf`: `res` = what the typed decoding makes of the scalar for a leaf of the given type; `stats.faithful` = is
+    the scalar a faithful reading of the plain spelling of `value` (the spec demands the file's leaf then) -/
+def runLeaf (c : Json) : Driver.E Json := do
+  let t ← leafTypeOf (← Driver.str c "type")
+  let y ← scalarOf (← Driver.fld c "scalar")
+  let res := leafToJson (decode t y)
+  match c.getObjVal? "value" with
+  | .ok vj =>
+    let v : Value ← (match t, vj with
+      | .string, .str s => pure (Value.str s.toList)
+      | .text, .str s => pure (Value.text s.toList)
+      | .bool, .bool b => pure (Value.bool b)
+      | .int, .num n => pure (Value.int n.mantissa)
+      | _, _ => throw "value does not fit the leaf type")
+    pure (Json.mkObj [("res", res), ("stats", Json.mkObj [
+      ("faithful", Json.bool (faithful v y)),
+      ("file", leafToJson (decode t v.fileScalar)),
+      ("spelling", Json.str (String.ofList v.spelling))])])
+  | _ => pure (Json.mkObj [("res", res)])
+
 def run (c : Json) : Driver.E Json := do
   let op ← Driver.str c "op"
+  if op == "leaf" then return (← runLeaf c)
   let d := ofJson (Driver.fldD c "defaults" Json.null)
   let d := match d with | .null => Val.map .nil | v => v
   let f ← fileOf c
